@@ -20,6 +20,12 @@ pub const FORMAT_SETS: &[&[&str]] = &[
 
 pub fn args_for(job: &Job, set: &[&str], extra: &[String]) -> Vec<String> {
     let mut a = vec!["-q".to_string(), job.root.clone()];
+    // v3: further input files of the command line (pseudo-file `@inputs`, one name per line), in this order
+    for (n, b) in &job.files {
+        if n == "@inputs" {
+            a.extend(String::from_utf8_lossy(b).lines().map(|l| l.to_string()));
+        }
+    }
     a.extend(extra.iter().cloned());
     for (k, f) in set.iter().enumerate() {
         if k > 0 {
@@ -136,6 +142,36 @@ pub fn gen_incfile(t: &mut Tape) -> Job {
     }
 }
 
+/// v3: two to four input files on one command line; each contributes rules/data/labels, so the order in which the
+/// files are assembled shows in bytes, addresses and listings
+pub fn gen_multi_input(t: &mut Tape) -> Job {
+    let n = t.urange(2, 4);
+    let mut files: Vec<(String, Vec<u8>)> = Vec::new();
+    let mut extra = String::new();
+    for k in 0..n {
+        let name = format!("in{}.asm", k);
+        let mut s = String::new();
+        if k == 0 {
+            s.push_str("#ruledef\n{\n    ld {x: u8} => 0x11 @ x\n    jmp {a} => 0x22 @ a`8\n}\n");
+        }
+        s.push_str(&format!("part{}:\n", k));
+        for _ in 0..t.urange(1, 3) {
+            match t.draw(3) {
+                0 => s.push_str(&format!("ld {}\n", t.draw(200))),
+                1 => s.push_str(&format!("jmp part{}\n", t.below(n))),
+                _ => s.push_str(&format!("#d8 {}\n", t.draw(200))),
+            }
+        }
+        s.push_str(&format!(".end{}:\n", k));
+        if k > 0 {
+            extra.push_str(&format!("{}\n", name));
+        }
+        files.push((name, s.into_bytes()));
+    }
+    files.push(("@inputs".into(), extra.into_bytes()));
+    Job { origin: "multi-input".into(), files, root: "in0.asm".into(), generated: true }
+}
+
 pub const TWIN_SET: &[&str] = &["symbols", "mesen-mlb", "addrspan", "annotated"];
 
 fn first_difference(a: &str, b: &str) -> String {
@@ -176,8 +212,12 @@ impl Property for C10 {
         let twins = crate::engine::gen_version() >= 2 && t.chance(1, 6);
         let buckets = crate::engine::gen_version() >= 2 && !twins && t.chance(1, 8);
         let incfile = crate::engine::gen_version() >= 2 && !twins && !buckets && t.chance(1, 8);
+        let multi = crate::engine::gen_version() >= 3 && !twins && !buckets && !incfile && t.chance(1, 8);
         let job = if twins {
             gen_twins(t)
+        } else if multi {
+            ctx.label("multi-input");
+            gen_multi_input(t)
         } else if incfile {
             ctx.label("incfile");
             gen_incfile(t)
@@ -211,7 +251,7 @@ impl Property for C10 {
         let text = job.files.iter().find(|f| f.0 == job.root).map(|f| String::from_utf8_lossy(&f.1).to_string()).unwrap_or_default();
         let nsym = text.lines().filter(|l| l.trim_end().ends_with(':') || l.contains(" = ")).count();
         let ndiag = r0.matches("error:").count();
-        ctx.nontrivial = nsym >= 8 || ndiag >= 2 || set.len() == 1 || twins || buckets || incfile;
+        ctx.nontrivial = nsym >= 8 || ndiag >= 2 || set.len() == 1 || twins || buckets || incfile || multi;
         ctx.label(if r0.starts_with("ok=true") { "succeeds" } else { "fails" });
         ctx.render(|| json!({"job": job_json(&job), "args": args}));
         let fail = |ctx: &mut CaseCtx, how: &str, a: &str, b: &str| -> Verdict {
